@@ -40,3 +40,22 @@ Example C02_example_neg_const :
   run_line "(case d (ft 1 0 0 0 0 0) (sd (item tuple pub T (gen) (attrs) (fields (_ i32))) (toks (id validate) (g (id greater) e (x (neg (k K))))) (env (K i32 5))) (try_new (i -3)) (try_new (i -7)))"
   = ["d accept ref=1"; "d.0 ok (i -3)"; "d.1 err GreaterViolated"].
 Proof. vm_compute. reflexivity. Qed.
+
+(* --- attribute layouts: order of the blocks and trailing commas never matter --------------- *)
+From NV Require Import Lemmas.LayoutLemmas.
+From Coq Require Import Permutation.
+
+Theorem C02_trailing_comma_irrelevant :
+  forall (ft : features) (fam : family) (bs : list wblock),
+    parse_attrs ft fam (render bs true) = parse_attrs ft fam (render bs false).
+Proof. exact parse_trailing_comma_irrelevant. Qed.
+Print Assumptions C02_trailing_comma_irrelevant.
+
+(* for every permutation of the written blocks the parser accepts the same declarations and
+   produces the very same rules *)
+Theorem C02_block_order_irrelevant :
+  forall (ft : features) (fam : family) (bs1 bs2 : list wblock) (t1 t2 : bool),
+    Permutation bs1 bs2 ->
+    forall p, parse_attrs ft fam (render bs1 t1) = Accept p <-> parse_attrs ft fam (render bs2 t2) = Accept p.
+Proof. exact parse_accept_order_irrelevant. Qed.
+Print Assumptions C02_block_order_irrelevant.
